@@ -14,6 +14,8 @@ def main():
     pid, mdir, name = sys.argv[1], sys.argv[2], sys.argv[3]
     tier = sys.argv[sys.argv.index("--tier") + 1] if "--tier" in sys.argv else "quick"
     also = sys.argv[sys.argv.index("--also") + 1].split(",") if "--also" in sys.argv else []
+    race = "--race" in sys.argv
+    gotest = "CGO_ENABLED=1 go test -race -vet=off -count=1 ./... 2>&1 | tail -15" if race else "go test -vet=off -count=1 ./... 2>&1 | tail -15"
     wt = f"/tmp/mv_{name}"
     sh(f"git -C /repo worktree remove --force {wt}")
     rc, out = sh(f"git -C /repo worktree add --detach {wt} HEAD")
@@ -21,7 +23,7 @@ def main():
     try:
         demo = os.path.join(mdir, "demo_test.go")
         shutil.copy(demo, os.path.join(wt, "zz_demo_test.go"))
-        rc1, o1 = sh("go test -vet=off -count=1 ./... 2>&1 | tail -5", cwd=wt)
+        rc1, o1 = sh(gotest, cwd=wt)
         meta["verified"]["clean_suite_and_demo_pass"] = ("FAIL" not in o1 and "ok" in o1)
         rc, o = sh(f"git apply {os.path.join(mdir, 'patch.diff')}", cwd=wt)
         meta["verified"]["patch_applies"] = rc == 0
@@ -31,7 +33,7 @@ def main():
         rc2, o2 = sh("go test -vet=off -count=1 ./... 2>&1 | tail -5", cwd=wt)
         meta["verified"]["suite_passes_with_patch"] = ("FAIL" not in o2 and "ok" in o2)
         shutil.copy(demo, os.path.join(wt, "zz_demo_test.go"))
-        rc3, o3 = sh("go test -vet=off -count=1 ./... 2>&1 | tail -15", cwd=wt)
+        rc3, o3 = sh(gotest, cwd=wt)
         meta["verified"]["demo_fails_with_patch"] = "FAIL" in o3
         meta["demo_output_tail"] = o3[-600:]
     finally:
